@@ -23,6 +23,7 @@ func init() {
 			{ID: "C11.R4", Floor: 8, Run: c11r4, Text: "sibling type-bit vectors: creation sites pass subscription(true, false, len(ids)>0, false, R, R) with R = `newRel != nil` or true; removal sites subscription(false, true, false, len(oldIds)>0, oldRel != nil, oldRel != nil); exchange sites (…, len(added)>0, len(removed)>0, relChanged, relChanged || targChanged)"},
 			{ID: "C11.R5", Floor: 1, Run: c10r3, Text: "no-op exchange (= C10.R3): the sometimes-nil result of the mover is not dereferenced by the notifier"},
 			{ID: "C11.R6", Floor: 6, Run: c11r6, Text: "Q variants: every function that builds a batch query passes a batch list that was filled by the mover; the close function notifies for a batch list when a listener is installed, after releasing the lock"},
+			{ID: "C11.R8", Floor: 1, Run: c11r8, Text: "deferred events read the old table after the batch: no function on the retire path (free-list push, deactivate, reset) writes the table's identity fields (RelationTarget, RelationComponent, HasRelationComponent, Mask), so OldTarget/OldRelation of batch events stay truthful after the old table was retired"},
 			{ID: "C11.R7", Floor: 1, Run: c12r5, Text: "freshness of notification inputs in loops (= C12.R5)"},
 		},
 	})
@@ -483,4 +484,29 @@ func c11r6(p *Prog, r *Reporter) {
 	}
 	r.Check(okAssert, name, "deferred batch notification", p.Pos(call.Pos()), "notifyQuery is called with the query's batch list obtained by a comma-ok assertion")
 	r.Check(released.Before(call.(ssa.Instruction)), name, "batch notification after release", p.Pos(call.Pos()), "the lock is released before the deferred events are delivered")
+}
+
+func c11r8(p *Prog, r *Reporter) {
+	push, _ := p.retirePrimitives()
+	if len(push) == 0 {
+		r.Anchor("function appending to nodeData.freeIndices")
+		return
+	}
+	for fn := range push {
+		name := p.FuncName(fn)
+		bad := ""
+		for _, pa := range p.Mod(fn).Paths() {
+			for _, f := range []string{"archetypeAccess.RelationTarget", "archetypeAccess.RelationComponent", "archetypeAccess.HasRelationComponent", "archetypeAccess.Mask", "archetype.archetypeAccess"} {
+				if strings.HasSuffix(pa, f) || strings.Contains(pa, f+".") {
+					w := p.Mod(fn).Has(func(s string) bool { return s == pa })
+					bad = pa + " (" + p.chain(w) + ")"
+				}
+			}
+		}
+		if bad == "" {
+			r.OK(name, "retire keeps the table's identity fields", p.FnPos(fn), "the retire path writes none of RelationTarget, RelationComponent, HasRelationComponent, Mask")
+		} else {
+			r.Bad(name, "retire keeps the table's identity fields", p.FnPos(fn), "retiring a table overwrites "+bad+": batch events, which are built after the batch from the old table, would report a wrong OldTarget/OldRelation")
+		}
+	}
 }
